@@ -291,6 +291,7 @@ bloom_filter_alloc<A> bloom_filter_alloc<A>::deserialize(std::istream& is, const
   read<uint16_t>(is); // unused
   const uint64_t seed = read<uint64_t>(is);
   const uint32_t num_longs = read<uint32_t>(is); // sized in java longs
+  if (num_longs == 0) throw std::invalid_argument("Possible corruption: bit array length must be positive");
   read<uint32_t>(is); // unused
 
   // if empty, stop reading
@@ -369,6 +370,7 @@ bloom_filter_alloc<A> bloom_filter_alloc<A>::internal_deserialize_or_wrap(void* 
 
   uint32_t num_longs;
   ptr += copy_from_mem(ptr, num_longs); // sized in java longs
+  if (num_longs == 0) throw std::invalid_argument("Possible corruption: bit array length must be positive");
   ptr += sizeof(uint32_t); // unused 32 bits follow
 
   // if empty, stop reading
